@@ -241,3 +241,90 @@ def self_attr_value(ff, flow, attr: str, at_stmt: ast.AST):
     if len(doms) != 1 or len(stores) != 1:
         return None
     return doms[0].value
+
+
+def specialise(fn: ast.FunctionDef, flow, atom) -> ast.FunctionDef:
+    """Copy of `fn` in which every `if` statement and conditional expression whose test is decided by the assumption is
+    replaced by the taken branch.  `atom(expanded_expr) -> True | False | None` gives the assumption on an (expanded,
+    canonical) test atom; tests are expanded with `flow` first, so `flag = has_x(v)` … `if flag:` is decided by an
+    assumption about `has_x(v)`.  Nested function definitions are left untouched.  The result is straight-line with
+    respect to the assumed facts: rules can read 'what happens in the case …' from it with the ordinary engines, whatever
+    statement shape (duplicated branches, one branch plus conditional expressions, guard clauses) the source uses."""
+    import copy
+
+    def decide(test):
+        try:
+            e = flow.expand(test)
+        except Exception:
+            e = test
+        # evaluate through canonical atoms
+        def ev(x):
+            atoms = canon_cond(x, True)
+            if len(atoms) == 1 and atoms[0][0] is x and atoms[0][1] is True:
+                v = atom(x)
+                if v is not None:
+                    return v
+                if isinstance(x, ast.BoolOp):
+                    vals = [ev(y) for y in x.values]
+                    if isinstance(x.op, ast.And):
+                        return False if any(v is False for v in vals) else (True if all(v is True for v in vals) else None)
+                    return True if any(v is True for v in vals) else (False if all(v is False for v in vals) else None)
+                if isinstance(x, ast.Constant):
+                    return bool(x.value)
+                return None
+            vals = []
+            for a, p in atoms:
+                v = ev(a) if a is not x else atom(a)
+                vals.append(None if v is None else (v == p))
+            return False if any(v is False for v in vals) else (True if all(v is True for v in vals) else None)
+        return ev(e)
+
+    # decide tests on the ORIGINAL nodes (flow knows them), then prune a deep copy: ast.walk visits both in the same order
+    root = copy.deepcopy(fn)
+    verdict: dict[int, bool | None] = {}
+    for o, c in zip(ast.walk(fn), ast.walk(root)):
+        if isinstance(o, (ast.If, ast.IfExp)):
+            verdict[id(c)] = decide(o.test)
+
+    def decide_at(n):
+        return verdict.get(id(n))
+
+    class T2(ast.NodeTransformer):
+        def visit_FunctionDef(self, n):
+            return n if n is not root else self.generic_visit(n)
+
+        def visit_Lambda(self, n):
+            return n
+
+        def visit_IfExp(self, n):
+            v = decide_at(n)
+            if v is True:
+                return self.visit(n.body)
+            if v is False:
+                return self.visit(n.orelse)
+            return self.generic_visit(n)
+
+    def block2(stmts):
+        out = []
+        for st in stmts:
+            if isinstance(st, ast.If):
+                v = decide_at(st)
+                if v is True:
+                    out += block2(st.body)
+                    continue
+                if v is False:
+                    out += block2(st.orelse)
+                    continue
+            for f in ("body", "orelse", "finalbody"):
+                b = getattr(st, f, None)
+                if isinstance(b, list) and b and isinstance(b[0], ast.stmt) and not isinstance(st, (ast.FunctionDef, ast.ClassDef)):
+                    setattr(st, f, block2(b) or ([ast.Pass()] if f == "body" else []))
+            if isinstance(st, ast.Try):
+                for h in st.handlers:
+                    h.body = block2(h.body) or [ast.Pass()]
+            out.append(st)
+        return out
+    root.body = block2(root.body) or [ast.Pass()]
+    root = T2().visit(root)
+    ast.fix_missing_locations(root)
+    return root
